@@ -202,8 +202,29 @@ func TestVerifStubFree(t *testing.T) {
 	var mu sync.Mutex
 	var regs []region
 	probe := func(sp *Space, want int32) string {
-		if err := Write(sp, retStub(want)); err != nil {
-			return "write-error:" + err.Error()
+		// the WHOLE region is written (a region may straddle a page boundary of the reserve): NOPs up to the last six bytes,
+		// which hold the stub proper, so that executing the region from its start runs through all of it
+		code := retStub(want)
+		if n := len(*sp.Space); n > len(code) {
+			pad := make([]byte, n-len(code))
+			for i := range pad {
+				pad[i] = 0x90
+			}
+			code = append(pad, code...)
+		}
+		werr := func() (e string) {
+			defer func() {
+				if r := recover(); r != nil {
+					e = fmt.Sprint("write-panic:", r)
+				}
+			}()
+			if err := Write(sp, code); err != nil {
+				return "write-error:" + err.Error()
+			}
+			return ""
+		}()
+		if werr != "" {
+			return werr
 		}
 		if got := callCode(sp.Addr); got != int(want) {
 			return fmt.Sprintf("exec-returned-%d-want-%d", got, want)
